@@ -362,9 +362,31 @@ func builtinModels(in *Interp, site ssa.CallInstruction, name string, args []Val
 		return boolAtomOrConst(in, name, args[0], args[1], strings.HasSuffix), true
 	case "strings.EqualFold":
 		return boolAtomOrConst(in, name, args[0], args[1], strings.EqualFold), true
-	case "strings.IndexRune", "strings.Index", "strings.IndexByte":
-		// only the sign is observable: -1 or 0
-		if in.truth(LazyBool{name + "(" + keyOf(args[0]) + "," + keyOf(args[1]) + ")>=0"}) {
+	case "strings.IndexRune", "strings.Index", "strings.IndexByte", "strings.ContainsRune":
+		// only the sign is observable: -1 or 0 — and it is the very fact
+		// strings.Contains states: one atom for all spellings (a byte or rune
+		// constant is the one-character string)
+		needle := args[1]
+		if k, isK := needle.(Konst); isK && k.V != nil && k.V.Kind() == constant.Int {
+			if n, ok := constant.Int64Val(k.V); ok && n >= 0 && n <= 0x10FFFF {
+				needle = kStr(string(rune(n)))
+			}
+		}
+		var has bool
+		isStr := false
+		if nk, isK := needle.(Konst); isK {
+			_, isStr = constStringVal(nk)
+		}
+		if isStr || name == "strings.Index" {
+			b := boolAtomOrConst(in, "strings.Contains", args[0], needle, strings.Contains)
+			has = in.truth(b)
+		} else {
+			has = in.truth(LazyBool{name + "(" + keyOf(args[0]) + "," + keyOf(args[1]) + ")>=0"})
+		}
+		if name == "strings.ContainsRune" {
+			return kBool(has), true
+		}
+		if has {
 			return kInt(0), true
 		}
 		return kInt(-1), true
